@@ -4,6 +4,7 @@
 //! plus the implementation's answers (`impl.out`).
 use common::*;
 
+mod candidate;
 mod decimal;
 mod parsers;
 mod strings;
@@ -19,6 +20,7 @@ fn stream(name: &str) -> (Replay, Generate) {
   match name {
     "amount" => (decimal::replay_amount, decimal::generate_amount),
     "decimal" => (decimal::replay_decimal, decimal::generate_decimal),
+    "decfix" => (candidate::replay, candidate::generate),
     "ids" | "outgoing" | "query" => (parsers::replay, parsers::generate),
     s => panic!("unknown stream {s}"),
   }
